@@ -202,6 +202,23 @@ func init() {
 		p, ok := e.Verify(time.Unix(a[1].I64(), a[2].I64()), fetcherOf(a[4]), discardLog)
 		return verdictSx(p, ok)
 	})
+	// C02's last clause on the implementation itself: verdict before and after write/read
+	regOp("sxg_verdict_roundtrip", func(a []Sx) Sx {
+		e := exchangeOf(a[0])
+		t := time.Unix(a[1].I64(), a[2].I64())
+		p1, ok1 := e.Verify(t, fetcherOf(a[4]), discardLog)
+		v1 := verdictSx(append([]byte{}, p1...), ok1)
+		var buf bytes.Buffer
+		if err := e.Write(&buf); err != nil {
+			return L(Sym("refused"), v1)
+		}
+		e2, err := sxg.ReadExchange(bytes.NewReader(buf.Bytes()))
+		if err != nil {
+			return L(Sym("unreadable"), v1)
+		}
+		p2, ok2 := e2.Verify(t, fetcherOf(a[4]), discardLog)
+		return L(Sym("written"), v1, verdictSx(p2, ok2))
+	})
 	regOp("sxg_read_verify", func(a []Sx) Sx {
 		e, err := sxg.ReadExchange(bytes.NewReader(a[0].B))
 		if err != nil {
@@ -209,6 +226,21 @@ func init() {
 		}
 		p, ok := e.Verify(time.Unix(a[1].I64(), a[2].I64()), fetcherOf(a[4]), discardLog)
 		return verdictSx(p, ok)
+	})
+	// ReadExchange, Verify, Verify again, Write: Verify must leave the exchange as it was
+	regOp("sxg_read_verify_history", func(a []Sx) Sx {
+		e, err := sxg.ReadExchange(bytes.NewReader(a[0].B))
+		if err != nil {
+			return L(Sym("invalid"))
+		}
+		t := time.Unix(a[1].I64(), a[2].I64())
+		p1, ok1 := e.Verify(t, fetcherOf(a[4]), discardLog)
+		v1 := verdictSx(append([]byte{}, p1...), ok1)
+		p2, ok2 := e.Verify(t, fetcherOf(a[4]), discardLog)
+		v2 := verdictSx(p2, ok2)
+		var buf bytes.Buffer
+		werr := e.Write(&buf)
+		return L(v1, v2, bytesR(buf.Bytes(), werr))
 	})
 	regOp("sxg_read_edit_verify", func(a []Sx) Sx {
 		e, err := sxg.ReadExchange(bytes.NewReader(a[0].B))
